@@ -2,5 +2,6 @@
 EXTENDS Signature, Json, SequencesExt
 WithExp(r) == [row |-> r, exp |-> Expected(r)]
 WithExpP(r) == [row |-> r, exp |-> PairExpected(r)]
-ASSUME ndJsonSerialize("rows.ndjson", SetToSeq({WithExp(r) : r \in Rows}) \o SetToSeq({WithExpP(r) : r \in PairRows}))
+WithExpB(r) == [row |-> r, exp |-> BurstExpected(r)]
+ASSUME ndJsonSerialize("rows.ndjson", SetToSeq({WithExp(r) : r \in Rows}) \o SetToSeq({WithExpP(r) : r \in PairRows}) \o SetToSeq({WithExpB(r) : r \in BurstRows}))
 =============================================================================
